@@ -143,6 +143,8 @@ def _run_p2c_exh(acc, job):
 @st.composite
 def _cpdag_case(draw):
     A = draw(S.dag_pattern(6, 9, shapes=("random", "sparse", "dense", "collider", "chain")))
+    if draw(st.integers(0, 2)) == 0:
+        A = draw(S.embedded(draw(S.dag_pattern(3, 6, shapes=("random", "dense", "collider", "complete")))))
     return {"sub": "cpdag_hyp", "A": A, "variants": draw(st.sampled_from([["int"], ["float"], ["weighted"]])),
             "salt": draw(st.integers(0, 7))}
 
@@ -150,6 +152,8 @@ def _cpdag_case(draw):
 @st.composite
 def _p2c_case(draw):
     P = draw(S.pdag(6, 7, max_undirected=8, weights=(4, 2, 2)))
+    if draw(st.integers(0, 2)) == 0:
+        P = draw(S.embedded(draw(S.pdag(3, 6, max_undirected=8, weights=(2, 3, 3)))))
     return {"sub": "p2c_hyp", "P": P, "dtype": draw(st.sampled_from(["int", "float"]))}
 
 
